@@ -407,6 +407,92 @@ def b_flag_set_before_test(s):
                     continue;
                 }''')
 
+@benign
+def discovery_by_find(s):
+    i, j = between(s, '        let rhs_name_to_id: HashMap<String, u64> = rhs', '        let common_rhs: HashSet<u64>')
+    new = '''        let mut common_cols: Vec<(u64, u64)> = Vec::new();
+        for (lhs_id, lhs_name) in &lhs.col_names {
+            if let Some((rhs_id, _)) = rhs.col_names.iter().find(|(_, n)| *n == lhs_name) {
+                common_cols.push((*lhs_id, *rhs_id));
+            }
+        }
+
+'''
+    return s[:i] + new + s[j:]
+
+@broken
+def b_discovery_by_find_ids_compared(s):
+    s = discovery_by_find(s)
+    return rep(s, 'rhs.col_names.iter().find(|(_, n)| *n == lhs_name)', 'rhs.col_names.iter().find(|(i, _)| *i == lhs_id)')
+
+@benign
+def hits_by_reference_and_separate_marking(s):
+    s = s.replace('for rhs_row in matched_rhs {\n                        rhs_matched[rhs_row - 1] = true;\n', 'for &rhs_row in &matched_rhs {\n')
+    s = s.replace('for rhs_row in matched_rhs {\n                            rhs_matched[rhs_row - 1] = true;\n', 'for &rhs_row in matched_rhs.iter() {\n')
+    return rep(s, '            match mode {\n                JoinMode::Inner', '            matched_rhs.iter().for_each(|r| rhs_matched[*r - 1] = true);\n            match mode {\n                JoinMode::Inner')
+
+@broken
+def b_separate_marking_wrong_index(s):
+    s = hits_by_reference_and_separate_marking(s)
+    return rep(s, 'matched_rhs.iter().for_each(|r| rhs_matched[*r - 1] = true);', 'matched_rhs.iter().for_each(|r| rhs_matched[*r] = true);')
+
+@benign
+def unmatched_right_positive_if(s):
+    return rep(s, '''                if rhs_matched[rhs_row - 1] {
+                    continue;
+                }
+''', '''                let already = rhs_matched[rhs_row - 1];
+                if already == true {
+                    continue;
+                }
+''')
+
+@benign
+def left_loop_as_iterator_chain(s):
+    s = rep(s, '        for lhs_row in 1..=lhs.rows {\n            let mut matched_rhs', '        for lhs_row in (1..=lhs.rows).into_iter() {\n            let mut matched_rhs')
+    return s
+
+@broken
+def b_left_loop_rev_take(s):
+    return rep(s, '        for lhs_row in 1..=lhs.rows {\n            let mut matched_rhs', '        for lhs_row in (1..=lhs.rows).take(10) {\n            let mut matched_rhs')
+
+@broken
+def b_cells_compared_unequal(s):
+    return rep(s, '        lhs_val == rhs_val\n', '        lhs_val != rhs_val\n')
+
+@broken
+def b_unmatched_right_exclusive_range(s):
+    return rep(s, 'JoinMode::FullOuter) {\n            for rhs_row in 1..=rhs.rows {', 'JoinMode::FullOuter) {\n            for rhs_row in 1..rhs.rows {')
+
+@broken
+def b_unmatched_right_guard_inverted(s):
+    return rep(s, '                if rhs_matched[rhs_row - 1] {\n                    continue;', '                if !rhs_matched[rhs_row - 1] {\n                    continue;')
+
+@broken
+def b_pairs_flagged_empty(s):
+    return rep(s, 'out_rows.push(merge_rows(lhs, lhs_row, rhs, rhs_row, &common_rhs, false));', 'out_rows.push(merge_rows(lhs, lhs_row, rhs, rhs_row, &common_rhs, true));')
+
+@broken
+def b_right_outer_emits_unmatched_left(s):
+    return rep(s, '''                    if matched_rhs.is_empty() {
+                        // handled when iterating unmatched rhs rows below
+                    } else {''', '''                    if matched_rhs.is_empty() {
+                        out_rows.push(merge_rows(lhs, lhs_row, rhs, 0, &common_rhs, true));
+                    } else {''')
+
+@broken
+def b_predicate_right_cell_from_left_table(s):
+    return rep(s, 'let rhs_val = rhs.data.get(rhs_col)', 'let rhs_val = lhs.data.get(rhs_col)')
+
+@broken
+def b_match_list_early_break(s):
+    return rep(s, '                    matched_rhs.push(rhs_row);\n', '                    matched_rhs.push(rhs_row);\n                    break;\n')
+
+@broken
+def b_marks_in_semi_only(s):
+    # pairs of the outer joins no longer marked
+    return s.replace('                            rhs_matched[rhs_row - 1] = true;\n', '')
+
 if __name__ == "__main__":
     flt = sys.argv[1] if len(sys.argv) > 1 else ""
     bad = 0
